@@ -982,7 +982,7 @@ impl Check for C06 {
     }
     fn phases(&self, tier: Tier, b: f64) -> Vec<Phase> {
         let q = tier == Tier::Quick;
-        vec![Phase { name: "random builder histories for Sign1, Sign, Mac, Mac0, Encrypt, Encrypt0, Recipient -> build -> encode (tagged or not) -> decode -> verify/decrypt, plus single perturbations", cases: scale(if q { 40000 } else { 2000000 }, b), exhaustive: false }]
+        vec![Phase { name: "random builder histories for Sign1, Sign, Mac, Mac0, Encrypt, Encrypt0, Recipient -> build -> encode (tagged or not) -> decode -> verify/decrypt, plus single perturbations", cases: scale(if q { 400000 } else { 2000000 }, b), exhaustive: false }]
     }
     fn run_case(&self, ctx: &mut Ctx, _phase: usize, idx: u64) {
         match idx % 7 {
